@@ -32,7 +32,9 @@ var (
 		// a value with characters that also occur in names (`_`, `-`, `=`) is bound byte for byte
 		"--out=w_-=z",
 		// an attached value may start with a dash or be a lone dash; an empty token is a positional
-		"-o=-a", "--out=-", ""}
+		"-o=-a", "--out=-", "",
+		// a value glued to a short option may contain `=`
+		"-ov=w"}
 	tokMid  = []string{"x", "-", "--", "-a", "--aa", "-b", "-ab", "-o", "-ov", "--out=v", "-ao", "-z"}
 	tokTiny = []string{"x", "-", "--", "-a", "-b", "-ab", "-ov", "-z"}
 	// built-in value types: additionally values with surrounding blanks (must be bound byte for byte)
